@@ -23,11 +23,29 @@
 
 namespace au {
 
+namespace detail {
+// Whether this Magnitude is known to be at most 1.
+//
+// Asking `get_value<double>(m)` directly would be a hard error for any Magnitude outside the range of
+// `double`, and this must stay usable in SFINAE contexts such as `std::is_convertible`.  So we look
+// at the (non-asserting) result for `m` and, if that cannot be computed, for `1 / m`.  A Magnitude so
+// extreme that neither can be computed is not _known_ to shrink.
+template <typename... BPs>
+constexpr bool is_known_to_be_at_most_one(Magnitude<BPs...>) {
+    constexpr auto m_result = get_value_result<long double>(Magnitude<BPs...>{});
+    constexpr auto inverse_result = get_value_result<long double>(MagInverseT<Magnitude<BPs...>>{});
+    return (m_result.outcome == MagRepresentationOutcome::OK)
+               ? (m_result.value <= 1.0L)
+               : ((inverse_result.outcome == MagRepresentationOutcome::OK) &&
+                  (inverse_result.value >= 1.0L));
+}
+}  // namespace detail
+
 // Check that this particular Magnitude won't cause this specific value to overflow its type.
 template <typename Rep, typename... BPs>
 constexpr bool can_scale_without_overflow(Magnitude<BPs...> m, Rep value) {
     // Scales that shrink don't cause overflow.
-    if (get_value<double>(m) <= 1.0) {
+    if (detail::is_known_to_be_at_most_one(m)) {
         (void)value;
         return true;
     } else {
